@@ -452,6 +452,14 @@ func (p *proxyConn) writeResponse(res *http.Response) error {
 		}
 	}
 
+	// HTTP/1.0 clients do not understand chunked coding (RFC 9112, section 6.1):
+	// delimit the body by closing the connection instead.
+	if !req.ProtoAtLeast(1, 1) && len(res.TransferEncoding) > 0 && !isHeaderOnlySpec(res) {
+		res.TransferEncoding = nil
+		res.ContentLength = -1
+		res.Close = true
+	}
+
 	if res.Close {
 		res.Header.Add("Connection", "close")
 	}
@@ -473,6 +481,10 @@ func (p *proxyConn) writeResponse(res *http.Response) error {
 		case isTextEventStream(res):
 			w := newPatternFlushWriter(p.brw.Writer, p.brw.Writer, sseFlushPattern)
 			err = res.Write(w)
+		case shouldChunk(res) && !req.ProtoAtLeast(1, 1):
+			// Relayed unchunked to an HTTP/1.0 client: there is no chunk boundary
+			// to flush on, so flush whatever the origin has sent so far.
+			err = res.Write(flushEveryWriter{p.brw.Writer})
 		case shouldChunk(res):
 			w := newPatternFlushWriter(p.brw.Writer, p.brw.Writer, chunkFlushPattern)
 			err = res.Write(w)
